@@ -13,7 +13,9 @@ if len(sys.argv) > 2 and sys.argv[1] == "--import":
             print("skip (not confirmed)", d); continue
         m = json.load(open(d + "/meta.json"))
         prop = m.get("property", "C??")
-        cnt[prop] = cnt.get(prop, 0) + 1
+        if prop not in cnt:
+            cnt[prop] = len(glob.glob("%s/benign/%s-r*" % (V, prop)))
+        cnt[prop] += 1
         dst = "%s/benign/%s-r%d" % (V, prop, cnt[prop])
         shutil.rmtree(dst, ignore_errors=True); os.makedirs(dst)
         shutil.copy(d + "/patch.diff", dst)
@@ -21,7 +23,8 @@ if len(sys.argv) > 2 and sys.argv[1] == "--import":
         c = json.load(open(d + "/confirm.json"))
         json.dump(dict(property=prop, kind=m.get("kind"), summary=m.get("summary"), equivalence_argument=m.get("equivalence_argument"),
                        files_touched=m.get("files_touched"),
-                       origin="produced by a fresh sub-agent asked for aggressive behaviour-preserving refactors of the functions of two properties (it saw the property texts and a scratch worktree, nothing from /verif)",
+                       round=int(os.environ.get("BENIGN_ROUND", "1")),
+                       origin=os.environ.get("BENIGN_ORIGIN", "produced by a fresh sub-agent asked for aggressive behaviour-preserving refactors of the functions of two properties (it saw the property texts and a scratch worktree, nothing from /verif)"),
                        confirmed_by_us=dict(how="tools/confirm_benign.py in a scratch worktree (removed afterwards): patch applies, go build ./... with and without -tags debug, the pinned suite passes, the differential test (refactored functions against verbatim copies of the originals; exhaustive on small inputs + random) passes in both builds",
                                             diff_test=c.get("diff_test"), suite_failures=c.get("suite_failures")),
                        note="diff_test.go.txt is the differential test (renamed so it is not compiled as part of /verif)"),
